@@ -100,3 +100,21 @@ VF_HARNESS(reextent_keeps_allocator) {
   check_all_released();
   vf_reach("reextent_keeps_allocator");
 }
+
+// assignment from a view (const lvalue, mutable lvalue, rvalue), equal or different extents: whatever the path inside the library, afterwards the array's
+// storage must have been produced by an allocator equal to the one get_allocator() reports, and every block is released through an equal allocator (ledger)
+extern "C" { int g_vsrc[NE + 2]; }
+template<std::size_t... I> static auto mkview(int* base, L const* n, std::index_sequence<I...>) { return multi::array_ref<int, D>(multi::extensions_t<D>{multi::index_extension(n[I])...}, base); }
+VF_HARNESS(assign_from_view) {
+  L n[D]; draw_extents<D>(n, 1, NB); L m[D]; draw_extents<D>(m, 1, NB); L ia = vf_range(1, 2);
+#pragma unroll
+  for(int k = 0; k < NE + 2; ++k) g_vsrc[k] = 70 + k;
+  { SLOT(0); Arr a(exts<D>(n), 0, SA(ia)); fill(a, 10); SLOT(2);
+    auto ref = mkview(g_vsrc, m, std::make_index_sequence<D>{});
+    L form = vf_range(0, 2);
+    if(form == 0) { auto const& cv = ref; a = cv(); } else if(form == 1) { auto v = ref(); a = v; } else { a = ref(); }
+    check_owner(a); check_vals(a, m, 70);
+    vf_assert(CFG_POCMA || a.get_allocator().id == ia, "assignment from a view keeps a non-propagating allocator"); }
+  check_all_released();
+  vf_reach("assign_from_view");
+}
